@@ -1120,6 +1120,68 @@ pub fn handle(op: &str, a: &[&str]) -> Option<String> {
                 Some(with_oracle(seq_txt, o))
             }
         }
+        ("line-instrs", [ps, prog]) => {
+            let p = P::parse(ps)?;
+            let prog = unhex(prog)?;
+            if !p.buildable() {
+                return Some("bad-args".into());
+            }
+            let sec = build_section(&p, &prog);
+            let dl = DebugLine::new(&sec, p.endian());
+            let program = match dl.program(DebugLineOffset(0), p.asz as u8, None, None) {
+                Ok(x) => x,
+                Err(e) => return Some(format!("err {}", rerr(&e))),
+            };
+            let h = program.header();
+            let mut it = h.instructions();
+            let mut t: Vec<String> = Vec::new();
+            let mut guard = 0usize;
+            loop {
+                guard += 1;
+                if guard > prog.len() + 2 {
+                    t.push("steps".into());
+                    break;
+                }
+                match it.next_instruction(h) {
+                    Ok(None) => {
+                        t.push("end".into());
+                        break;
+                    }
+                    Err(e) => {
+                        t.push(format!("err:{}", rerr(&e)));
+                        // "all subsequent calls return Ok(None)"
+                        if !matches!(it.next_instruction(h), Ok(None)) {
+                            return Some(with_oracle(format!("ok {}", t.join(" ")), Some("instr-after-error".into())));
+                        }
+                        break;
+                    }
+                    Ok(Some(i)) => t.push(match i {
+                        LineInstruction::Special(n) => format!("sp:{n}"),
+                        LineInstruction::Copy => "cp".into(),
+                        LineInstruction::AdvancePc(n) => format!("apc:{n}"),
+                        LineInstruction::AdvanceLine(n) => format!("al:{n}"),
+                        LineInstruction::SetFile(n) => format!("sf:{n}"),
+                        LineInstruction::SetColumn(n) => format!("sc:{n}"),
+                        LineInstruction::NegateStatement => "ns".into(),
+                        LineInstruction::SetBasicBlock => "bb".into(),
+                        LineInstruction::ConstAddPc => "cap".into(),
+                        LineInstruction::FixedAddPc(n) => format!("fap:{n}"),
+                        LineInstruction::SetPrologueEnd => "pe".into(),
+                        LineInstruction::SetEpilogueBegin => "eb".into(),
+                        LineInstruction::SetIsa(n) => format!("isa:{n}"),
+                        LineInstruction::UnknownStandard0(op) => format!("u0:{}", op.0),
+                        LineInstruction::UnknownStandard1(op, a) => format!("u1:{}:{a}", op.0),
+                        LineInstruction::UnknownStandardN(op, a) => format!("unx:{}:{}", op.0, hex(a.slice())),
+                        LineInstruction::EndSequence => "es".into(),
+                        LineInstruction::SetAddress(a) => format!("sa:{a}"),
+                        LineInstruction::DefineFile(f) => format!("df:{}", file_s(&f)),
+                        LineInstruction::SetDiscriminator(n) => format!("sd:{n}"),
+                        LineInstruction::UnknownExtended(op, d) => format!("ux:{}:{}", op.0, hex(d.slice())),
+                    }),
+                }
+            }
+            Some(format!("ok {}", t.join(" ")))
+        }
         ("line-abs", [ps, toks @ ..]) => {
             let p = P::parse(ps)?;
             let mut is = Vec::new();
@@ -1478,6 +1540,8 @@ pub fn gen(ctx: &Ctx, emit: &mut dyn FnMut(String)) {
         emit(format!("line-abs {} {}", p.token(), toks.join(" ")));
         if i % 2 == 0 {
             emit(format!("line-seqs {} {}", p.token(), hex(&encode_prog(&p, &is))));
+        } else {
+            emit(format!("line-instrs {} {}", p.token(), hex(&encode_prog(&p, &is))));
         }
     }
 
@@ -1488,6 +1552,7 @@ pub fn gen(ctx: &Ctx, emit: &mut dyn FnMut(String)) {
         let raw = if i % 4 == 0 { rng.bytes_below(24) } else { gen_raw(&mut rng, &p) };
         emit(format!("line-rows {} {}", p.token(), hex(&raw)));
         emit(format!("line-seqs {} {}", p.token(), hex(&raw)));
+        emit(format!("line-instrs {} {}", p.token(), hex(&raw)));
     }
 
     // 4. headers with tables: correspondence (line-hdr), intent oracle (line-hexp), then every
